@@ -1,17 +1,24 @@
 #!/bin/bash
-# Runs every seeded change against the check of its property (quick tier) and writes seeded/MATRIX.md.
+# Runs every seeded change against the check of its property (quick tier; meta.json "checked_by" names further checks to run) and
+# writes seeded/MATRIX.md.  Uses /repo itself (apply, check, restore): run it only when nothing else uses /repo.
 cd /verif
 out=seeded/MATRIX.md
 echo "| seeded change | property | what it needs to manifest | check result (quick tier) |" > $out
 echo "|---|---|---|---|" >> $out
 for d in seeded/*/; do
   m=$(basename $d); p=${m%%-*}
+  [ -f $d/meta.json ] || continue
   needs=$(python3 -c "import json,sys;d=json.load(open('$d/meta.json'));print((d.get('status_on_current_tree') or d.get('needs','')).replace('|','/').replace('\n',' ')[:260])")
   if python3 -c "import json,sys;sys.exit(0 if 'status_on_current_tree' in json.load(open('$d/meta.json')) else 1)"; then
     res="not applicable to the current tree (superseded by a fix)"
   else
-    r=$(tools/try_mutant.sh $m $p quick 2>&1 | tail -1)
-    case "$r" in *rc=1*) res="caught: $p exits 1 with a VIOLATION and replay file";; *rc=0*) res="MISSED";; *) res="no verdict ($r)";; esac
+    res=""
+    for c in $p $(python3 -c "import json;print(' '.join(json.load(open('$d/meta.json')).get('checked_by',[])))"); do
+      r=$(tools/try_mutant.sh $m $c quick 2>&1 | tail -1)
+      case "$r" in *rc=1*) res="$res caught: $c exits 1 with a VIOLATION and replay file;";; *rc=0*) res="$res not reported by $c;";; *) res="$res no verdict from $c ($r);";; esac
+    done
+    note=$(python3 -c "import json;print(json.load(open('$d/meta.json')).get('matrix_note','').replace('|','/'))")
+    [ -n "$note" ] && res="$res $note"
   fi
   echo "| $m | $p | $needs | $res |" >> $out
   echo "$m $res"
